@@ -62,6 +62,12 @@ impl Log {
     }
 }
 
+static LOG: std::sync::OnceLock<Log> = std::sync::OnceLock::new();
+pub fn init(path: &str) -> &'static Log {
+    LOG.get_or_init(|| Log::create(path).expect("cannot create trace file"))
+}
+pub fn log() -> &'static Log { LOG.get().expect("log not initialised") }
+
 #[macro_export]
 macro_rules! ev {
     ($log:expr, $kind:expr $(, $k:ident : $v:expr)* $(,)?) => {
